@@ -8,6 +8,7 @@ Core Lean only.  (Also holds `pick`, `argmin`, `normalRaw`, which `CBV.Model.C10
 -/
 import CBV.Model.Common
 import CBV.Gen.Tables
+import CBV.Gen.TC10
 
 namespace CBV.C10
 
